@@ -3,6 +3,7 @@ import Thanos.Model.Bucket
 import Thanos.Model.DedupFilter
 import Thanos.Model.Retention
 import Thanos.Model.Shipper
+import Thanos.Model.CompactSync
 /-
   Line-protocol driver of the `block` family (C28 C31 C32 C33 C35).
   One request per line, one answer per line; every line is self-contained.
@@ -29,6 +30,11 @@ import Thanos.Model.Shipper
           blocks = <id>:<minT>:<maxT>:<level>:<numSamples>:<indexSize>:<seg>,<seg>,…;…   (sorted by minT, distinct)
           steps  = s:<k> | s:x (one Sync with crash budget) | rm (shipper file lost) ; …
         answer: <status>[<mutating calls>]file=<ids|none> … => b<id>{<listing>} …
+
+  C33   c33.fault <layout> <lister> <call> <sync> <readKind> <n> <outcome>     (layout, lister, call, sync, n: for the Go side)
+          readKind = listing | exists-meta | get-meta | get-deletion-mark | get-no-compact-mark
+          outcome  = notfound | corrupt | badversion | failed
+        answer: sync=<failed|ok> compact=<err|ok> writes-after=<0|n/a>
 -/
 open Thanos Thanos.Parse
 
@@ -248,8 +254,35 @@ def shipRun (cfg blocks steps : String) : String :=
     " ".intercalate outs ++ " => " ++ " ".intercalate listing
   | _, _, _ => "bad-op"
 
+-- ---------------------------------------------------------------- C33
+
+def parseReadKind : String → Option CompactSync.ReadKind
+  | "listing" => some .listing
+  | "exists-meta" => some .existsMeta
+  | "get-meta" => some .getMeta
+  | "get-deletion-mark" => some .getDeletionMark
+  | "get-no-compact-mark" => some .getNoCompactMark
+  | _ => none
+
+def parseOutcome : String → Option CompactSync.Outcome
+  | "notfound" => some .notFound
+  | "corrupt" => some .corrupt
+  | "badversion" => some .badVersion
+  | "failed" => some .failed
+  | _ => none
+
+def c33Fault (kind outcome : String) : String :=
+  match parseReadKind kind, parseOutcome outcome with
+  | some k, some o =>
+    -- every other read of the iteration succeeds; the writes are abstract (one token)
+    let r := CompactSync.iteration [(k, o)] ["w"]
+    if r.1 then s!"sync=failed compact=err writes-after={r.2.length}"
+    else "sync=ok compact=ok writes-after=n/a"
+  | _, _ => "bad-op"
+
 def handle : List String → String
   | ["blk.run", chunks, index, steps] => blkRun chunks index steps
+  | ["c33.fault", _, _, _, _, kind, _, outcome] => c33Fault kind outcome
   | ["ship.run", cfg, blocks, steps] => shipRun cfg blocks steps
   | ["c32.ret", now, rets, blocks] => c32Ret now rets blocks
   | ["c32.clean", now, delay, marks] => c32Clean now delay marks
